@@ -71,6 +71,10 @@ func (c *Ctx) ruleT3() {
 					}
 				}
 			})
+			if len(tests) == 0 && c.logIDCheckedByHelper(f, d) {
+				c.ok("T3", cons, call.Pos(), "a helper given the fetched log compares every entry's log id with the store's and its error makes the fetch step fail")
+				continue
+			}
 			if len(tests) == 0 {
 				c.bad("T3", cons, call.Pos(), "the fetch step never compares the log id of what it fetched with the store's: the fetched log is created with the store's id whatever its entries say, and Join merges that log's heads even when it adds none of its entries, so a valid entry of ANOTHER database (announced as a head or referenced as an ancestor) shows up among this log's heads and values")
 				continue
@@ -89,6 +93,73 @@ func (c *Ctx) ruleT3() {
 		}
 	}
 	c.floor("T3", "replicator fetch steps", n, 1)
+}
+
+// logIDCheckedByHelper: f hands the fetched log to a same-package function that compares the
+// entries' log id and returns an error on the mismatching edge, and f leaves on that error.
+func (c *Ctx) logIDCheckedByHelper(f *ssa.Function, d map[ssa.Value]bool) bool {
+	found := false
+	eachCall(f, func(call ssa.CallInstruction) {
+		if found {
+			return
+		}
+		if _, isGo := call.(*ssa.Go); isGo {
+			return
+		}
+		h := call.Common().StaticCallee()
+		if h == nil || h.Blocks == nil || h.Pkg != f.Pkg {
+			return
+		}
+		var ps []ssa.Value
+		for i, a := range call.Common().Args {
+			if d[a] && i < len(h.Params) {
+				ps = append(ps, h.Params[i])
+			}
+		}
+		if len(ps) == 0 {
+			return
+		}
+		// the caller leaves on the helper's error
+		ev := errResult(call)
+		if ev == nil || !(returnedDirectly(ev) || len(errTests(ev)) > 0) {
+			return
+		}
+		dh := derived(ps, flowOpts{throughCalls: true})
+		okTest := false
+		bad := false
+		eachInstr(h, func(in ssa.Instruction) {
+			bo, ok := in.(*ssa.BinOp)
+			if !ok || (bo.Op != token.EQL && bo.Op != token.NEQ) {
+				return
+			}
+			isLogID := func(v ssa.Value) bool {
+				cl, ok := v.(*ssa.Call)
+				return ok && methodName(cl) == "GetLogID" && cl.Common().IsInvoke() && dh[cl.Common().Value]
+			}
+			if !isLogID(bo.X) && !isLogID(bo.Y) {
+				return
+			}
+			for _, r := range *bo.Referrers() {
+				iff, ok := r.(*ssa.If)
+				if !ok {
+					continue
+				}
+				edge := 1
+				if bo.Op == token.NEQ {
+					edge = 0
+				}
+				okTest = true
+				sc := iff.Block().Succs[edge]
+				if hit, _ := findPath(h, atBlock(sc), nil, successReturn, nil); hit != nil && branchCovers(sc, hit.Block()) {
+					bad = true
+				}
+			}
+		})
+		if okTest && !bad {
+			found = true
+		}
+	})
+	return found
 }
 
 // T4 — the replicator is only handed heads that were accepted. In the function that checks
